@@ -3,6 +3,7 @@
 from __future__ import annotations
 
 import ast
+import re
 import itertools
 
 from ..astq import attr_stores, body_walk, dotted, src, walk_local, norm_stmt, fn_calls
@@ -358,6 +359,25 @@ def r6_type_resolution(chk: Check):
     """Declared types are resolved exactly: the table of basic types is looked up by the key itself (an Enum that also
     derives from int / str must stay an enumeration), and enumerations are recognised before any structural fallback"""
     tree = chk.tree
+    # the declared hint object itself decides: no table keyed by the *text* of a hint (two classes of the same name print alike)
+    for ff in tree.nontest_funcs():
+        if ff.module.name not in ("core.arguments", "core.types", "core.objects"):
+            continue
+        gg = CFG(ff.node)
+        rr = ReachingDefs(gg)
+        for nn in gg.live:
+            for x in nn.walk():
+                key = None
+                if isinstance(x, ast.Subscript) and isinstance(x.ctx, (ast.Load, ast.Store)):
+                    key = x.slice
+                elif isinstance(x, ast.Call) and isinstance(x.func, ast.Attribute) and x.func.attr in ("get", "setdefault", "pop") and x.args:
+                    key = x.args[0]
+                if key is None:
+                    continue
+                kt = rr.canon(key, nn)
+                if re.match(r"^(repr|str)\(", kt) and re.search(r"type|hint", kt, re.I) and "name" not in kt:
+                    chk.violation(chk.fkey(ff, "type looked up by its text"), f"`{src(x)[:80]}` in `{ff.qual}` indexes a table with `{kt}`: the text of a type hint does not identify it (same-named classes, re-defined classes), "
+                                  "so a parameter may be validated against another class than the declared one", chk.loc(ff.module, x))
     f = tree.func("core.types", "Type.fromType")
     g = CFG(f.node)
     rd = ReachingDefs(g)
